@@ -10,7 +10,7 @@ def run(ctx):
         "maps, expand._expand), memoising GateCount / AuxQubitCount evaluator hooks; tied to the code by vm_compute "
         "correspondence over random linked programs (corr_C19.py) and AST fingerprints",
         "partial: compile/link front end (SubBuilder, resolvers, transpiler hooks), registers, the order of aux qubits of an "
-        "expanded sub (tuple(set())), recursion rejection on cyclic graphs, and the Inverse / Controlled / MultiControlled "
+        "expanded sub (tuple(set())), and the Inverse / Controlled / MultiControlled "
         "library constructions are decided by the reference-interpreter + numpy sweep (sweep_C19.py) only",
     ]
     fingerprint.check(ctx, "packages/qsub/quri_parts/qsub/allocate.py",
